@@ -2,7 +2,9 @@ package engine
 
 import (
 	"fmt"
+	"go/constant"
 	"go/token"
+	"strconv"
 	"go/types"
 	"sort"
 	"strings"
@@ -169,15 +171,117 @@ func (w *Witness) Path() string {
 	return strings.Join(s, " ∧ ")
 }
 
+// boolEnv records, along a path, what each boolean phi (the value of a
+// short-circuit expression such as `a && (b || c)` used in a switch case or
+// assigned to a variable) resolved to, given the predecessor edge actually
+// taken: a constant, or the atom computed on that edge. This is jump threading
+// on demand; it removes the infeasible paths through binop.done blocks.
+type boolEnv map[*ssa.Phi]ssa.Value
+
+func (e boolEnv) key() string {
+	if len(e) == 0 {
+		return ""
+	}
+	var parts []string
+	for ph, v := range e {
+		parts = append(parts, ph.Name()+"="+v.Name())
+	}
+	sort.Strings(parts)
+	return strings.Join(parts, ",")
+}
+
+func isBool(t types.Type) bool {
+	b, ok := t.Underlying().(*types.Basic)
+	return ok && b.Info()&types.IsBoolean != 0
+}
+
+// enter returns the environment after entering block b from pred.
+func (e boolEnv) enter(pred, b *ssa.BasicBlock) boolEnv {
+	idx := -1
+	for i, p := range b.Preds {
+		if p == pred {
+			idx = i
+		}
+	}
+	var out boolEnv
+	for _, in := range b.Instrs {
+		ph, ok := in.(*ssa.Phi)
+		if !ok {
+			break
+		}
+		if !isBool(ph.Type()) || idx < 0 || idx >= len(ph.Edges) {
+			continue
+		}
+		if out == nil {
+			out = boolEnv{}
+			for k, v := range e {
+				out[k] = v
+			}
+		}
+		out[ph] = e.resolve(ph.Edges[idx])
+	}
+	if out == nil {
+		return e
+	}
+	return out
+}
+
+// resolve follows negations-free aliases: a phi known in the environment is
+// replaced by its resolved value.
+func (e boolEnv) resolve(v ssa.Value) ssa.Value {
+	for i := 0; i < 8; i++ {
+		if ph, ok := v.(*ssa.Phi); ok {
+			if r, has := e[ph]; has && r != v {
+				v = r
+				continue
+			}
+		}
+		break
+	}
+	return v
+}
+
+// edgeLit computes the literal of edge b->Succs[i] under env; feasible=false
+// when the environment decides the branch the other way.
+func (e boolEnv) edgeLit(b *ssa.BasicBlock, i int) (lit *Lit, feasible bool) {
+	if len(b.Instrs) == 0 {
+		return nil, true
+	}
+	iff, ok := b.Instrs[len(b.Instrs)-1].(*ssa.If)
+	if !ok || len(b.Succs) != 2 {
+		return nil, true
+	}
+	c := iff.Cond
+	pos := i == 0
+	for {
+		c = ResolveLocal(c)
+		if u, ok := c.(*ssa.UnOp); ok && u.Op == token.NOT {
+			c = u.X
+			pos = !pos
+			continue
+		}
+		if ph, ok := c.(*ssa.Phi); ok {
+			if r, has := e[ph]; has && r != c {
+				c = r
+				continue
+			}
+		}
+		break
+	}
+	if k, ok := c.(*ssa.Const); ok && k.Value != nil && isBool(k.Type()) {
+		return nil, constant.BoolVal(k.Value) == pos
+	}
+	l := CondLit(c, pos)
+	return &l, true
+}
+
 // Find returns a witness path to some target instruction, or nil.
 func (q Query) Find() *Witness {
 	type state struct {
-		b *ssa.BasicBlock
-		i int
-	}
-	type pred struct {
-		from *ssa.BasicBlock
-		lit  *Lit
+		b   *ssa.BasicBlock
+		i   int
+		env boolEnv
+		par *node
 	}
 	if len(q.Fn.Blocks) == 0 {
 		return nil
@@ -186,45 +290,26 @@ func (q Query) Find() *Witness {
 	if len(start) == 0 {
 		start = []Point{{q.Fn.Blocks[0], 0}}
 	}
-	parent := map[*ssa.BasicBlock]pred{}
-	visited := map[*ssa.BasicBlock]bool{}
+	visited := map[string]bool{}
 	var work []state
 	for _, s := range start {
-		work = append(work, state{s.B, s.I})
-	}
-	trace := func(b *ssa.BasicBlock) []Lit {
-		var lits []Lit
-		seen := map[*ssa.BasicBlock]bool{}
-		for {
-			p, ok := parent[b]
-			if !ok || seen[b] {
-				break
-			}
-			seen[b] = true
-			if p.lit != nil {
-				lits = append(lits, *p.lit)
-			}
-			b = p.from
-		}
-		for i, j := 0, len(lits)-1; i < j; i, j = i+1, j-1 {
-			lits[i], lits[j] = lits[j], lits[i]
-		}
-		return lits
+		work = append(work, state{s.B, s.I, nil, nil})
 	}
 	for len(work) > 0 {
 		s := work[0]
 		work = work[1:]
 		if s.i == 0 {
-			if visited[s.b] {
+			k := strconv.Itoa(s.b.Index) + "|" + s.env.key()
+			if visited[k] {
 				continue
 			}
-			visited[s.b] = true
+			visited[k] = true
 		}
 		cut := false
 		for i := s.i; i < len(s.b.Instrs); i++ {
 			in := s.b.Instrs[i]
 			if q.Target != nil && q.Target(in) {
-				return &Witness{Instr: in, Lits: trace(s.b)}
+				return &Witness{Instr: in, Lits: s.par.lits()}
 			}
 			if q.CutInstr != nil && q.CutInstr(in) {
 				cut = true
@@ -235,23 +320,37 @@ func (q Query) Find() *Witness {
 			continue
 		}
 		for si, succ := range s.b.Succs {
-			var lp *Lit
-			if l, ok := EdgeLit(s.b, si); ok {
-				lp = &l
+			lp, feasible := s.env.edgeLit(s.b, si)
+			if !feasible {
+				continue
 			}
 			if q.CutEdge != nil && q.CutEdge(s.b, si, lp) {
 				continue
 			}
-			if visited[succ] {
-				continue
+			par := s.par
+			if lp != nil {
+				par = &node{lit: *lp, up: s.par}
 			}
-			if _, has := parent[succ]; !has {
-				parent[succ] = pred{s.b, lp}
-			}
-			work = append(work, state{succ, 0})
+			work = append(work, state{succ, 0, s.env.enter(s.b, succ), par})
 		}
 	}
 	return nil
+}
+
+type node struct {
+	lit Lit
+	up  *node
+}
+
+func (n *node) lits() []Lit {
+	var out []Lit
+	for x := n; x != nil; x = x.up {
+		out = append(out, x.lit)
+	}
+	for i, j := 0, len(out)-1; i < j; i, j = i+1, j-1 {
+		out[i], out[j] = out[j], out[i]
+	}
+	return out
 }
 
 // IsReturn / IsNormalReturn classify instructions for exit-directed queries.
@@ -530,8 +629,8 @@ func EnumPaths(fn *ssa.Function, o EnumOpts) ([]Path, error) {
 			Blocks: append([]*ssa.BasicBlock(nil), blocks...),
 		})
 	}
-	var walk func(b *ssa.BasicBlock, first bool)
-	walk = func(b *ssa.BasicBlock, first bool) {
+	var walk func(b *ssa.BasicBlock, first bool, env boolEnv)
+	walk = func(b *ssa.BasicBlock, first bool, env boolEnv) {
 		if err != nil {
 			return
 		}
@@ -562,16 +661,20 @@ func EnumPaths(fn *ssa.Function, o EnumOpts) ([]Path, error) {
 			}
 		}
 		for i, s := range b.Succs {
-			if l, ok := EdgeLit(b, i); ok {
-				lits = append(lits, l)
-				walk(s, false)
+			l, feasible := env.edgeLit(b, i)
+			if !feasible {
+				continue
+			}
+			if l != nil {
+				lits = append(lits, *l)
+				walk(s, false, env.enter(b, s))
 				lits = lits[:len(lits)-1]
 			} else {
-				walk(s, false)
+				walk(s, false, env.enter(b, s))
 			}
 		}
 	}
-	walk(start, true)
+	walk(start, true, nil)
 	return out, err
 }
 
